@@ -1,4 +1,200 @@
+//! Gen/Atomics.lean: every shared-memory site of the crate, per function:
+//! atomic loads/stores/swaps/CASes/RMWs with the receiver's field path and the `Ordering`
+//! arguments as written, mutex `lock()` calls, `park`/`unpark`/`yield_now`/`spin_loop`,
+//! `retire_shared`/`defer_retire`, and the intra-crate calls (by method name) a function makes.
+use crate::expr::tokens_of;
 use crate::util::*;
-pub fn generate(_files: &[SourceFile], _report: &mut Report) -> String {
-    String::from("-- GENERATED placeholder\n")
+use syn::visit::Visit;
+use syn::Expr;
+
+#[derive(Clone)]
+struct Site {
+    func: String,
+    kind: String,
+    path: String,
+    ords: Vec<String>,
+}
+
+struct V<'a> {
+    func: String,
+    sites: &'a mut Vec<Site>,
+    /// (caller, callee name, number of arguments, receiver text ("" for path calls))
+    calls: &'a mut Vec<(String, String, usize, String)>,
+}
+
+fn ord_name(e: &Expr) -> Option<String> {
+    let s = tokens_of(e);
+    for o in ["Relaxed", "Acquire", "Release", "AcqRel", "SeqCst"] {
+        if s == format!("Ordering::{}", o) || s.ends_with(&format!("::{}", o)) {
+            return Some(o.to_string());
+        }
+    }
+    None
+}
+
+/// last one or two field names of a receiver chain: `tree_bin.first` -> "first", `self.size_ctl` -> "size_ctl",
+/// `treenode!(x).red` -> "red", `self.bins[i]` -> "bins[]"
+fn field_path(e: &Expr) -> String {
+    match e {
+        Expr::Field(f) => match &f.member {
+            syn::Member::Named(i) => i.to_string(),
+            syn::Member::Unnamed(i) => i.index.to_string(),
+        },
+        Expr::Index(i) => format!("{}[]", field_path(&i.expr)),
+        Expr::Paren(p) => field_path(&p.expr),
+        Expr::Reference(r) => field_path(&r.expr),
+        Expr::MethodCall(m) => format!("{}()", m.method),
+        Expr::Path(p) => p.path.segments.last().map(|s| s.ident.to_string()).unwrap_or_default(),
+        Expr::Match(_) => "<match>".into(),
+        Expr::Unary(u) => field_path(&u.expr),
+        _ => "<expr>".into(),
+    }
+}
+
+impl<'ast, 'a> Visit<'ast> for V<'a> {
+    fn visit_expr_method_call(&mut self, m: &'ast syn::ExprMethodCall) {
+        let name = m.method.to_string();
+        let ords: Vec<String> = m.args.iter().filter_map(ord_name).collect();
+        let kind = match name.as_str() {
+            "load" if !ords.is_empty() => Some("load"),
+            "store" if !ords.is_empty() => Some("store"),
+            "swap" if !ords.is_empty() => Some("swap"),
+            "compare_exchange" | "compare_exchange_weak" if !ords.is_empty() => Some("cas"),
+            "fetch_add" | "fetch_sub" | "fetch_or" | "fetch_and" if !ords.is_empty() => Some("rmw"),
+            "lock" if m.args.is_empty() => Some("lock"),
+            "try_lock" => Some("lock"),
+            "unpark" => Some("unpark"),
+            "retire_shared" | "defer_retire" => Some("retire"),
+            "clone" if tokens_of(&m.receiver).ends_with(".value") => Some("clone_load"),
+            _ => None,
+        };
+        if let Some(k) = kind {
+            self.sites.push(Site { func: self.func.clone(), kind: k.into(), path: field_path(&m.receiver), ords });
+        } else {
+            self.calls.push((self.func.clone(), name, m.args.len(), tokens_of(&m.receiver)));
+        }
+        syn::visit::visit_expr_method_call(self, m);
+    }
+    fn visit_expr_call(&mut self, c: &'ast syn::ExprCall) {
+        let f = tokens_of(&c.func);
+        let last = f.rsplit("::").next().unwrap_or("").to_string();
+        match last.as_str() {
+            "park" | "park_timeout" => self.sites.push(Site { func: self.func.clone(), kind: "park".into(), path: String::new(), ords: vec![] }),
+            "yield_now" => self.sites.push(Site { func: self.func.clone(), kind: "yield".into(), path: String::new(), ords: vec![] }),
+            "spin_loop" => self.sites.push(Site { func: self.func.clone(), kind: "spin".into(), path: String::new(), ords: vec![] }),
+            "sleep" => self.sites.push(Site { func: self.func.clone(), kind: "sleep".into(), path: String::new(), ords: vec![] }),
+            _ => self.calls.push((self.func.clone(), last, c.args.len(), String::new())),
+        }
+        syn::visit::visit_expr_call(self, c);
+    }
+    fn visit_expr_macro(&mut self, m: &'ast syn::ExprMacro) {
+        // `treenode!(x).red.load(..)` is parsed as field access on a macro: nothing to do here;
+        // macros whose arguments contain expressions (assert!, debug_assert!) are skipped
+        let _ = m;
+    }
+}
+
+pub fn generate(files: &[SourceFile], report: &mut Report) -> String {
+    let mut sites = vec![];
+    let mut calls = vec![];
+    let mut fnames = vec![];
+    // per function: (number of non-receiver parameters, has receiver, is a method of a std trait impl)
+    let mut finfo: Vec<(usize, bool, bool)> = vec![];
+    for rel in ["map.rs", "node.rs", "raw/mod.rs", "reclaim.rs", "iter/mod.rs", "iter/traverser.rs", "set.rs", "map_ref.rs", "set_ref.rs"] {
+        let Some(f) = file(files, rel) else { continue };
+        for fi in fns(f) {
+            let ty = fi.imp.map(|im| tokens_of(&im.self_ty).trim_start_matches('&').split('<').next().unwrap_or("").to_string()).unwrap_or_default();
+            let full = if ty.is_empty() { fi.name.clone() } else { format!("{}::{}", ty, fi.name) };
+            fnames.push(full.clone());
+            let has_recv = fi.sig.inputs.iter().any(|a| matches!(a, syn::FnArg::Receiver(_)));
+            let nparams = fi.sig.inputs.iter().filter(|a| matches!(a, syn::FnArg::Typed(_))).count();
+            let std_trait = fi.imp.and_then(|im| im.trait_.as_ref()).map(|(_, p, _)| {
+                let t = p.segments.last().map(|s| s.ident.to_string()).unwrap_or_default();
+                ["Clone", "PartialEq", "Eq", "Debug", "Drop", "Extend", "FromIterator", "Iterator", "IntoIterator", "Default", "Deref", "From", "Index", "Display", "Error", "Hasher", "BuildHasher"].contains(&t.as_str())
+            }).unwrap_or(false);
+            finfo.push((nparams, has_recv, std_trait));
+            let mut v = V { func: full, sites: &mut sites, calls: &mut calls };
+            v.visit_block(fi.block);
+        }
+    }
+    let ls = |v: &[String]| format!("[{}]", v.iter().map(|s| lean_str(s)).collect::<Vec<_>>().join(", "));
+    let id_of: std::collections::HashMap<String, usize> = fnames.iter().enumerate().map(|(i, f)| (f.clone(), i)).collect();
+    let mut out = String::from("-- GENERATED by /verif/extract from /repo/src on every run. Do not edit.\n");
+    out.push_str("import Flurry.SigDefs\nnamespace Flurry.Gen\nopen Flurry.Sig\n\n/-- function names; the index is the function's id -/\ndef crateFns : List String := ");
+    out.push_str(&ls(&fnames));
+    out.push_str("\n\ndef atomicSites : List Site := [\n");
+    out.push_str(
+        &sites
+            .iter()
+            .map(|s| format!("  {{ fn := {}, fnId := {}, kind := {}, path := {}, ords := {} }}", lean_str(&s.func), id_of.get(&s.func).copied().unwrap_or(0), lean_str(&s.kind), lean_str(&s.path), ls(&s.ords)))
+            .collect::<Vec<_>>()
+            .join(",\n"),
+    );
+    // call edges by id: a call of method `m` may reach every function of the crate named `m`
+    let mut ce: Vec<(usize, usize)> = vec![];
+    for (caller, callee, nargs, recv) in &calls {
+        let Some(a) = id_of.get(caller) else { continue };
+        for (j, f) in fnames.iter().enumerate() {
+            if f.rsplit("::").next().unwrap() != callee {
+                continue;
+            }
+            let (nparams, has_recv, std_trait) = finfo[j];
+            // method syntax: the receiver is not among the arguments; path syntax: it is
+            let arity_ok = if recv.is_empty() { *nargs == nparams + has_recv as usize } else { has_recv && *nargs == nparams };
+            if !arity_ok {
+                continue;
+            }
+            // a method of a std trait (clone, next, eq, …) is only taken to be the crate's impl when
+            // it is called on `self`/`other` or one of their fields
+            if std_trait && !recv.is_empty() {
+                let r = recv.trim_start_matches('&').trim_start_matches("(*");
+                if !(r.starts_with("self") || r.starts_with("other")) {
+                    continue;
+                }
+            }
+            ce.push((*a, j));
+        }
+    }
+    ce.sort();
+    ce.dedup();
+    out.push_str("\n]\n\n/-- (caller id, callee id): resolved by method name (an over-approximation) -/\ndef callEdges : List (Nat × Nat) := [");
+    out.push_str(&ce.iter().map(|(a, b)| format!("({}, {})", a, b)).collect::<Vec<_>>().join(", "));
+    out.push_str("]\n\n");
+    // read entry points and the functions reachable from them (a certificate: Lean re-checks that
+    // the list contains the roots and is closed under `callEdges`)
+    let roots = [
+        "HashMap::get", "HashMap::get_key_value", "HashMap::contains_key", "HashMap::len", "HashMap::is_empty",
+        "HashMap::guarded_eq", "HashMap::iter", "HashMap::keys", "HashMap::values", "NodeIter::next", "NodeIter::new",
+        "Iter::next", "Iter::next_internal", "Keys::next", "Values::next", "HashSet::contains", "HashSet::get", "HashSet::iter",
+        "HashSet::len", "HashSet::is_empty", "HashSet::is_disjoint", "HashSet::is_subset", "HashSet::is_superset", "HashSet::guarded_eq",
+        "HashMapRef::get", "HashMapRef::get_key_value", "HashMapRef::contains_key", "HashMapRef::iter", "HashMapRef::keys",
+        "HashMapRef::values", "HashMapRef::len", "HashMapRef::is_empty", "HashSetRef::contains", "HashSetRef::get",
+        "HashSetRef::iter", "HashSetRef::len", "HashSetRef::is_empty",
+    ];
+    let mut clos: std::collections::BTreeSet<usize> = roots.iter().filter_map(|r| id_of.get(*r).copied()).collect();
+    let root_ids: Vec<usize> = roots.iter().filter_map(|r| id_of.get(*r).copied()).collect();
+    loop {
+        let before = clos.len();
+        for (a, b) in &ce {
+            if clos.contains(a) {
+                clos.insert(*b);
+            }
+        }
+        if clos.len() == before {
+            break;
+        }
+    }
+    out.push_str(&format!("def readRootNames : List String := {}\n", ls(&roots.iter().filter(|r| id_of.contains_key(**r)).map(|r| r.to_string()).collect::<Vec<_>>())));
+    out.push_str(&format!("def readRoots : List Nat := [{}]\n", root_ids.iter().map(|i| i.to_string()).collect::<Vec<_>>().join(", ")));
+    out.push_str(&format!("def readClosure : List Nat := [{}]\n", clos.iter().map(|i| i.to_string()).collect::<Vec<_>>().join(", ")));
+    out.push_str("\nend Flurry.Gen\n");
+    report.count("read_closure", clos.len());
+    report.count("atomic_sites", sites.len());
+    report.count("call_edges", ce.len());
+    if sites.is_empty() {
+        report.fail("atomics", "no atomic sites found");
+    } else {
+        report.ok("atomics");
+    }
+    out
 }
